@@ -218,7 +218,7 @@ class Sorts:
             if v.kind == "set":
                 return "((as const %s) %s)" % (s, self.empty_set(v.args[0]))
             if v.kind == "vset":
-                return "((as const %s) vs_empty)" % s
+                return "((as const %s) (mkVSet ((as const (Array Val Bool)) false) ((as const (Array Val Val)) VNone) 0))" % s
             return "((as const %s) (as seq.empty %s))" % (s, self.sort(v))
         return "((as const %s) %s)" % (s, self.none(v))
 
